@@ -177,8 +177,14 @@ sys.stdout.write(json.dumps(res))
 
 def run_both_entries(root):
     import subprocess
-    p = subprocess.run([sys.executable, "-S", "-E", "-B", "-c", _RUNNER2], cwd=root, capture_output=True,
-                       text=True, timeout=60, env={"PYTHONHASHSEED": "0", "PATH": "/usr/bin:/bin"})
+    for timeout in (60, 600):      # programs run in milliseconds; a timeout means a starved machine: retry once
+        try:
+            p = subprocess.run([sys.executable, "-S", "-E", "-B", "-c", _RUNNER2], cwd=root, capture_output=True,
+                               text=True, timeout=timeout, env={"PYTHONHASHSEED": "0", "PATH": "/usr/bin:/bin"})
+            break
+        except subprocess.TimeoutExpired:
+            if timeout == 600:
+                raise
     try:
         return json.loads(p.stdout)
     except ValueError:
